@@ -50,7 +50,10 @@ PROPS_PART = {
         native=[dict(bin='bnd_zone_add', when='quick',
                      bound='all add sequences of length <= 4 over a 20-record universe (accepted: new/nested owners creating empty non-terminals, mixed-case owners, duplicates, case-variant NS RDATA, TYPE257, wildcard, delegation + glue, CNAME; '
                            'rejected: owner above/beside the zone, class mismatch at an existing and at new deep owners, TTL mismatch for A and for TYPE257), each from a fresh zone (so every intermediate state is observed); '
-                           'sequences of length <= 2 also under a mixed-case apex; after each: full iteration, soa/ns, checked lookups of 20 names x 6 types + addrs + all x search_below_cuts',
+                           'sequences of length <= 2 also under a mixed-case apex; after each: full iteration, soa/ns, checked lookups of 20 names x 6 types + addrs + all x search_below_cuts; '
+                           'deep zones (iteration + soa/ns only): TXT records at every subset of the 8 leaves of the binary tree of depth 3 below the apex (x 4 runs, the hash-map order is random per zone) '
+                           'and at every 29th subset (as a bit set) of the 16 leaves of depth 4, with and without records at the inner nodes; full trees (branches, depth) = (2,3) (2,4) (2,5) (3,3) (4,2) (3,4) '
+                           'below the apex and below s.r.ap.ex. (with siblings sib.r.ap.ex., z.ap.ex.), 8 runs each',
                      what='public API of the real HashMapTreeZone vs a flat record list (bounded/src/zone_ref.rs): add Ok/Err (not the error kind) == owner at/below apex and class matches and TTL equals the existing RRset\'s; '
                           'iter_by_node yields every node once incl. empty non-terminals with exactly its de-duplicated RRsets; iter_by_rrset exactly those RRsets; soa()/ns() == apex SOA/NS; '
                           'all lookups equal the reference built from the ACCEPTED records only (a rejected add changes nothing, creates no node)')],
